@@ -540,6 +540,10 @@ func c44CheckHistory(tb ev.TB, rec *ev.Rec, base *c44Base, probes []c44Probe) {
 			}
 		} else {
 			mc.mut = func(t []byte) []byte { return cred }
+			keysBefore := 0
+			if c := caches[s2.CacheID]; c != nil {
+				keysBefore = len(c.keys)
+			}
 			r2 := runPairVia(mk, cli(base.CliMax), []byte("second"), []byte("dnoces"))
 			mc.mut = nil
 			if r2.inconclusive {
@@ -569,6 +573,28 @@ func c44CheckHistory(tb ev.TB, rec *ev.Rec, base *c44Base, probes []c44Probe) {
 				}
 				if !r2.c2sOK || !r2.s2cOK {
 					rec.Fail(tb, "resumed-data-not-intact", w, "data did not flow on the resumed connection: %s", r2.dataNote)
+				}
+				// On a resumption the ServerHello echoes the session id the *client* chose. Whatever entered
+				// the server-side session cache during this connection is therefore keyed by an id the server
+				// never issued: a hello carrying only that id must not be resumed.
+				if c := caches[s2.CacheID]; c != nil && len(c.keys) > keysBefore {
+					rec.Class("cache-entry-added-during-resumption")
+					for _, k := range append([]string{}, c.keys[keysBefore:]...) {
+						id, err := hex.DecodeString(k)
+						if err != nil || len(id) == 0 || len(id) > 32 {
+							continue
+						}
+						ff, _, inc := sendRawHelloVia(mk, &rawHello{Vers: sess.vers, Suites: base.Suites, Curves: []uint16{23, 24, 25}, SessionID: id})
+						if inc {
+							rec.Excluded("watchdog")
+							continue
+						}
+						if ff.Resumed {
+							if !rec.Fail(tb, "resumed-by-client-chosen-session-id", w, "after a ticket resumption the server honours the client-chosen session id %s (cached during the resumed handshake) without a ticket", k) {
+								break
+							}
+						}
+					}
 				}
 			} else {
 				rec.Class("not-resumed")
